@@ -4,7 +4,6 @@ CONSTANTS
   Steps <- StepsBig
   GridOnly = FALSE
   Dump = TRUE
-  Cap = 300
 INVARIANT ImplFollowsRef
 INVARIANT ImplAgreesOffHazards
 INVARIANT HazardShape
